@@ -3,6 +3,7 @@ package main
 // Forward VC generation for one function under contract.
 
 import (
+	"os"
 	"fmt"
 	"go/constant"
 	"go/token"
@@ -71,7 +72,14 @@ type Exec struct {
 	curBlock     *ssa.BasicBlock
 	st           *State
 	inputs       []string
+	held         []invQVal // values with abruptrely clauses
 	deferred     []*ssa.Defer
+	parent       *Exec      // set while a deferred function is inlined into its caller's VC
+	inl          *inlineCtx // ditto
+	abrupts      []abruptPt
+	realBlk      *ssa.BasicBlock
+	abruptOn     int
+	inlineN      int
 }
 
 func (ex *Exec) unsup(format string, a ...interface{}) {
@@ -117,17 +125,21 @@ func (ex *Exec) oblige(kind, label, goal string, p token.Pos) {
 	if r != "true" {
 		g = fmt.Sprintf("(=> %s %s)", r, goal)
 	}
-	name := fmt.Sprintf("%s#%s[%s]", ex.fnName(), kind, label)
+	root := ex.rootExec()
+	if ex.parent != nil {
+		label = "deferred:" + label
+	}
+	name := fmt.Sprintf("%s#%s[%s]", root.fnName(), kind, label)
 	for _, o := range ex.obligs {
 		if o.Name == name {
 			ex.safeN[name]++
-			name = fmt.Sprintf("%s#%s[%s~%d]", ex.fnName(), kind, label, ex.safeN[name]+1)
+			name = fmt.Sprintf("%s#%s[%s~%d]", root.fnName(), kind, label, ex.safeN[name]+1)
 			break
 		}
 	}
-	o := &Oblig{Name: name, Func: ex.fnName(), Kind: kind, Label: label, Cut: len(ex.e.lines), Goal: g, Pos: ex.pos(p), ex: ex, Inputs: ex.inputs, Reach: r}
-	if ex.con != nil && ex.con.TimeoutS > 0 {
-		o.TimeoutS = ex.con.TimeoutS
+	o := &Oblig{Name: name, Func: root.fnName(), Kind: kind, Label: label, Cut: len(ex.e.lines), Goal: g, Pos: ex.pos(p), ex: root, Inputs: root.inputs, Reach: r}
+	if root.con != nil && root.con.TimeoutS > 0 {
+		o.TimeoutS = root.con.TimeoutS
 	}
 	ex.obligs = append(ex.obligs, o)
 	ex.e.assume(g)
@@ -170,6 +182,7 @@ func (ex *Exec) paramVal(name string, t types.Type) Val {
 
 func (ex *Exec) relyInvOnly(v Val, t types.Type) {
 	if v.T != "" && v.Loc == nil && v.Tup == nil {
+		ex.holdForAbrupt(v, t)
 		for _, cl := range ex.g.typeInvQ[typeKey(t)] {
 			ex.invQVals = append(ex.invQVals, invQVal{v, cl})
 			ex.assumeHere(ex.clauseTerm(cl, map[string]Val{cl.ObsName: v}, ex.st, ex.entry, false))
@@ -214,6 +227,7 @@ func (ex *Exec) assumeInv(v Val, inv *ssa.Function) {
 // hypothesis of the global invariant whose other half is the create obligations).
 func (ex *Exec) rely(v Val, t types.Type) {
 	if v.T != "" && v.Loc == nil && v.Tup == nil {
+		ex.holdForAbrupt(v, t)
 		for _, cl := range ex.g.typeInvQ[typeKey(t)] {
 			ex.invQVals = append(ex.invQVals, invQVal{v, cl})
 			ex.assumeHere(ex.clauseTerm(cl, map[string]Val{cl.ObsName: v}, ex.st, ex.entry, false))
@@ -347,16 +361,89 @@ func (ex *Exec) keepStable(extra map[string]bool) func(string) bool {
 	}
 }
 
-// jsEffect: anything script can do.
-func (ex *Exec) jsEffect(st *State) *State {
-	esc := map[string]bool{}
-	for a, n := range ex.locals {
-		if a.Heap {
-			esc[n] = true
+// allocEscapes: can code outside this function reach the local? A local that is only captured by
+// closures which are deferred right away is touched by nothing but those deferred calls.
+func allocEscapes(a *ssa.Alloc) bool {
+	refs := a.Referrers()
+	if refs == nil {
+		return true
+	}
+	for _, r := range *refs {
+		switch r := r.(type) {
+		case *ssa.Store:
+			if r.Addr != ssa.Value(a) {
+				return true
+			}
+		case *ssa.UnOp, *ssa.DebugRef:
+		case *ssa.MakeClosure:
+			rr := r.Referrers()
+			if rr == nil {
+				return true
+			}
+			for _, u := range *rr {
+				if _, dbg := u.(*ssa.DebugRef); dbg {
+					continue
+				}
+				if d, ok := u.(*ssa.Defer); !ok || d.Call.Value != ssa.Value(r) {
+					if os.Getenv("GVC_DEBUG_ESC") != "" {
+						fmt.Fprintf(os.Stderr, "escapes: %s via closure user %T %s\n", a.Comment, u, u)
+					}
+					return true
+				}
+			}
+		default:
+			if os.Getenv("GVC_DEBUG_ESC") != "" {
+				fmt.Fprintf(os.Stderr, "escapes: %s via %T %s\n", a.Comment, r, r)
+			}
+			return true
 		}
 	}
-	n := st.havocAll(ex.keepStable(esc))
+	return false
+}
+
+// jsEffect: anything script can do.
+func (ex *Exec) jsEffect(st *State) *State {
+	return ex.jsEffect2(st, false)
+}
+
+func (ex *Exec) holdForAbrupt(v Val, t types.Type) {
+	r := ex.rootExec()
+	for _, cl := range ex.g.abruptRely[typeKey(t)] {
+		dup := false
+		for _, h := range r.held {
+			if h.v.T == v.T && h.cl == cl {
+				dup = true
+			}
+		}
+		if !dup {
+			r.held = append(r.held, invQVal{v, cl})
+		}
+	}
+}
+
+// jsEffect2: abrupt = the unknown code ended in a panic: fields listed under abrupthavoc are not
+// preserved; instead the abruptrely clauses relate the state it leaves behind to the one before.
+func (ex *Exec) jsEffect2(st *State, abrupt bool) *State {
+	esc := map[string]bool{}
+	for x := ex; x != nil; x = x.parent {
+		for a, n := range x.locals {
+			if a.Heap && allocEscapes(a) {
+				esc[n] = true
+			}
+		}
+	}
+	keep := ex.keepStable(esc)
+	if abrupt {
+		k0 := keep
+		keep = func(name string) bool { return k0(name) && !ex.g.abruptHavoc[name] }
+	}
+	n := st.havocAll(keep)
 	n.heap["jsfx"] = "true"
+	if abrupt && ex.curBlock != nil {
+		for _, h := range ex.rootExec().held {
+			ex.assumeHere(ex.clauseTerm(h.cl, map[string]Val{h.cl.ObsName: h.v}, n, st, false))
+		}
+	}
 	if _, ok := ex.e.hsort["lastload"]; ok {
 		n.heap["lastload"] = "nil" // unknown code ran: no poll is "the last event" any more
 	}
@@ -413,6 +500,10 @@ func (ex *Exec) run() {
 	}
 	for _, fv := range ex.fn.FreeVars {
 		ex.vals[fv] = ex.paramVal("fv_"+fv.Name(), fv.Type())
+	}
+	if fnCallsRecover(ex.fn) {
+		// a function written to be deferred: what recover() returns is an input (nil: not panicking)
+		ex.params["recovered"] = ex.paramVal("recovered", types.NewInterfaceType(nil, nil))
 	}
 	if ex.con != nil {
 		capt := map[string]bool{}
@@ -504,11 +595,15 @@ func (ex *Exec) run() {
 	blocks := ex.order()
 	ex.reach[ex.fn.Blocks[0]] = "true"
 	for _, b := range blocks {
+		if b == ex.fn.Recover {
+			continue
+		}
 		ex.execBlock(b)
 		if len(ex.unsupported) > 0 {
 			return
 		}
 	}
+	ex.finishAbrupt()
 }
 
 // clauseTerm evaluates a clause function with named arguments.
@@ -627,6 +722,7 @@ func (ex *Exec) execBlock(b *ssa.BasicBlock) {
 		}
 	}
 	ex.curBlock = b
+	ex.realBlk = b
 	if li != nil {
 		ex.loopHead(li)
 	}
@@ -1040,6 +1136,15 @@ func (ex *Exec) execInstr(in ssa.Instruction) {
 		c := ex.get(in.Cond)
 		b := in.Block()
 		r := ex.reach[b]
+		if lit := trivialBool(e, c.T); lit != "" && ex.parent != nil && b.Succs[0] != b.Succs[1] {
+			// a branch of an inlined deferred function decided by what recover() returned
+			if lit == "true" {
+				ex.edge[[2]int{b.Index, b.Succs[0].Index}] = r
+			} else {
+				ex.edge[[2]int{b.Index, b.Succs[1].Index}] = r
+			}
+			return
+		}
 		ct := e.define(fmt.Sprintf("cond_b%d", b.Index), "Bool", c.T)
 		and := func(a, b string) string {
 			if a == "true" {
@@ -1057,23 +1162,52 @@ func (ex *Exec) execInstr(in ssa.Instruction) {
 		b := in.Block()
 		ex.edge[[2]int{b.Index, b.Succs[0].Index}] = ex.reach[b]
 	case *ssa.Return:
+		if ex.inl != nil {
+			var vals []Val
+			for _, r := range in.Results {
+				vals = append(vals, ex.get(r))
+			}
+			ex.inl.normals = append(ex.inl.normals, outcome{cond: ex.curCond(), st: ex.st, rets: vals})
+			return
+		}
 		ex.doReturn(in)
 	case *ssa.Panic:
 		ex.doPanic(in)
+		if ex.abruptMode() {
+			pv := ex.get(in.X)
+			ex.addAbrupt(ex.curCond(), ex.st, pv, in.Pos())
+		}
 	case *ssa.RunDefers:
 		if ex.sweep {
 			ex.st = ex.jsEffect(ex.st)
 			return
 		}
-		if len(ex.deferred) > 0 {
-			ex.unsup("defer is not supported in this function shape")
-		}
+		ex.runDefersNormal(in)
 	case *ssa.Defer:
-		ex.deferred = append(ex.deferred, in)
 		if ex.sweep {
+			ex.deferred = append(ex.deferred, in)
 			return
 		}
-		ex.unsup("defer is not supported yet")
+		// the defer must be registered on every path that reaches the rest of the function
+		reach := map[*ssa.BasicBlock]bool{}
+		stack := []*ssa.BasicBlock{in.Block()}
+		for len(stack) > 0 {
+			x := stack[len(stack)-1]
+			stack = stack[:len(stack)-1]
+			for _, sc := range x.Succs {
+				if !reach[sc] {
+					reach[sc] = true
+					stack = append(stack, sc)
+				}
+			}
+		}
+		for b := range reach {
+			if b != ex.fn.Recover && !in.Block().Dominates(b) {
+				ex.unsup("conditionally executed defer is not supported")
+				return
+			}
+		}
+		ex.deferred = append(ex.deferred, in)
 	case *ssa.Go, *ssa.Send, *ssa.Select:
 		if ex.sweep {
 			ex.st = ex.jsEffect(ex.st)
@@ -1399,9 +1533,36 @@ func (ex *Exec) doReturn(in *ssa.Return) {
 		}
 		vals = append(vals, v)
 	}
+	ex.ensuresAtBlock(vals, in.Pos(), in.Block())
+}
+
+// ensuresAt: the ordinary postconditions with the given results in the current state.
+func (ex *Exec) ensuresAt(vals []Val, p token.Pos) {
+	ex.ensuresAtBlock(vals, p, nil)
+}
+
+func (ex *Exec) ensuresAtBlock(vals []Val, inPos token.Pos, blk *ssa.BasicBlock) {
 	m := ex.resultMap(vals)
-	if len(ex.con.ExitVars) > 0 {
-		b := in.Block()
+	if len(ex.con.ExitVars) > 0 && blk == nil {
+		for _, p := range ex.con.ExitVars {
+			for _, cl := range ex.con.Ensures {
+				if cl.Fn == nil {
+					continue
+				}
+				for i, nm := range cl.Names {
+					if nm == p.Name {
+						m[p.Name] = ex.env.freshVal("exitvar_"+p.Name, cl.Fn.Params[i].Type())
+					}
+				}
+				if _, ok := m[p.Name]; ok {
+					break
+				}
+			}
+			ex.flushFacts()
+		}
+	}
+	if len(ex.con.ExitVars) > 0 && blk != nil {
+		b := blk
 		pos := len(b.Instrs) - 1
 		for _, p := range ex.con.ExitVars {
 			if v := ex.reachingDef(p.Name, b, pos); v != nil {
@@ -1431,10 +1592,10 @@ func (ex *Exec) doReturn(in *ssa.Return) {
 			lbl = fmt.Sprintf("%d", i+1)
 		}
 		t := ex.clauseTerm(cl, m, ex.st, ex.entry, true)
-		ex.oblige("ensures", lbl, t, in.Pos())
+		ex.oblige("ensures", lbl, t, inPos)
 		ex.obligs[len(ex.obligs)-1].Clause = cl
 	}
-	ex.frameCheck(in.Pos())
+	ex.frameCheck(inPos)
 }
 
 func (ex *Exec) doPanic(in *ssa.Panic) {
@@ -1495,4 +1656,23 @@ func (ex *Exec) heapsOfType(t types.Type) []string {
 	add(e.elemHeap(t))
 	sort.Strings(out)
 	return out
+}
+
+// trivialBool decides the few closed conditions that arise from recover() == nil / != nil.
+func trivialBool(e *Emitter, t string) string {
+	t = strings.TrimSpace(t)
+	for i := 0; i < 4; i++ {
+		if d, ok := e.defs[t]; ok {
+			t = d
+		}
+	}
+	switch t {
+	case "true", "false":
+		return t
+	case "(= nilbox nilbox)":
+		return "true"
+	case "(not (= nilbox nilbox))":
+		return "false"
+	}
+	return ""
 }
